@@ -1435,4 +1435,12 @@ theorem yield_terminated (ht : TerminatedWF G = true) {d : Deriv} (hd : d.WF G =
   · simp [h]
   · simp [List.getLast?_map, h1, h2]
 
+/-! ## Part 6: histories -/
+
+theorem runHistory_append (st : Option Tree) (a b : List HStep) :
+    runHistory G st (a ++ b) = runHistory G st a ++ runHistory G (finalState G st a) b := by
+  induction a generalizing st with
+  | nil => rfl
+  | cons h hs ih => simp [runHistory, finalState, ih]
+
 end C10
